@@ -32,7 +32,7 @@ ASSUMPTIONS = [
 ]
 TRUSTED = ["z3 5.1 (UFLIA)", "vt.dtmodel", "vt.sym explorer", "pycron, pytz (uninterpreted)"]
 BOUNDS = {"now": "unbounded Int us", "timedelta offset": "unbounded Int us", "zones": "1 uninterpreted zone", "expressions": "1 uninterpreted expression", "loops": "none"}
-REQUIRED_COVERS = ["due", "not_due", "none", "td", "zone", "second_evaluation", "model_boundary"]
+REQUIRED_COVERS = ["due", "not_due", "none", "td", "zone", "second_evaluation", "shape_full", "shape_minute", "shape_hour", "model_boundary"]
 
 ZONES = ["Europe/Berlin", "America/New_York", "Australia/Lord_Howe", "Australia/Sydney", "Asia/Kolkata", "Asia/Kathmandu",
          "Pacific/Chatham", "America/St_Johns"]
@@ -42,7 +42,15 @@ def cases(tier: str, hname: str = "harness") -> List[Any]:
     return [{"kind": "none"}, {"kind": "td"}, {"kind": "zone"}]
 
 
-def _exact_expr(wall: real_dt.datetime) -> str:
+# the expression is opaque to the property (pycron decides), but code may look at its fields: three shapes are used
+SHAPES = {"EXPR": "full", "7 * * * *": "minute", "7 3 * * *": "hour"}
+
+
+def _exact_expr(wall: real_dt.datetime, shape: str = "full") -> str:
+    if shape == "minute":
+        return f"{wall.minute} * * * *"
+    if shape == "hour":
+        return f"{wall.minute} {wall.hour} * * *"
     return f"{wall.minute} {wall.hour} {wall.day} {wall.month} *"
 
 
@@ -62,6 +70,8 @@ def harness(c: sym.Ctx, case: Any) -> None:
     c.cover(kind)
     now = c.int("now")
     td = c.int("td") if kind == "td" else 0
+    expr = c.choose(list(SHAPES), "expression")
+    c.cover("shape_" + SHAPES[expr])
     if c.mode == "sym":
         dtmodel.CLOCK = dtmodel.Clock(now)
         run = _sched.sym_run_module()
@@ -78,7 +88,7 @@ def harness(c: sym.Ctx, case: Any) -> None:
             elif kind == "zone":
                 off0 = "Z/One"
             try:
-                run.get_task_delay(types.SimpleNamespace(cron="EXPR", cron_offset=off0, time=None, task_name="t", schedule_id="s"))
+                run.get_task_delay(types.SimpleNamespace(cron=expr, cron_offset=off0, time=None, task_name="t", schedule_id="s"))
             except Exception as exc:  # noqa: BLE001
                 c.check(False, "unexpected_exception", exc=repr(exc))
                 return
@@ -89,7 +99,7 @@ def harness(c: sym.Ctx, case: Any) -> None:
             off = TD(_us=td)
         elif kind == "zone":
             off = "Z/One"
-        task = types.SimpleNamespace(cron="EXPR", cron_offset=off, time=None, task_name="t", schedule_id="s")
+        task = types.SimpleNamespace(cron=expr, cron_offset=off, time=None, task_name="t", schedule_id="s")
         try:
             r = run.get_task_delay(task)
         except Exception as exc:  # noqa: BLE001
@@ -100,7 +110,7 @@ def harness(c: sym.Ctx, case: Any) -> None:
             shift = td
         elif kind == "zone":
             shift = run.pytz.timezone("Z/One").offset_at_utc(now)
-        want = run.is_now.match("EXPR", (now + shift) // MIN)
+        want = run.is_now.match(expr, (now + shift) // MIN)
         c.event("result", r, "is_now calls", len(run.is_now.calls))
         if r is None:
             c.cover("not_due")
@@ -116,10 +126,10 @@ def harness(c: sym.Ctx, case: Any) -> None:
     earlier = None
     if dict(c.fixed_choices).get("second_evaluation_in_the_same_process"):
         earlier = int(c.assignment.get("earlier", int(now)))
-    _concrete(c, kind, int(now), int(td), zone, earlier)
+    _concrete(c, kind, int(now), int(td), zone, earlier, SHAPES[expr])
 
 
-def _concrete(c: sym.Ctx, kind: str, now: int, td: int, zone: str, earlier: Any = None) -> None:
+def _concrete(c: sym.Ctx, kind: str, now: int, td: int, zone: str, earlier: Any = None, shape: str = "full") -> None:
     """the real get_task_delay on a real ScheduledTask (so the model's own validators run), real pycron / pytz, frozen clock"""
     from taskiq.scheduler.scheduled_task import ScheduledTask
 
@@ -129,7 +139,7 @@ def _concrete(c: sym.Ctx, kind: str, now: int, td: int, zone: str, earlier: Any 
             off_e = real_dt.timedelta(microseconds=int(td))
         elif kind == "zone":
             off_e = zone
-        with _sched.real_run_module(min(earlier, now)) as run0:
+        with _sched.real_run_module(min(earlier, now), fresh=True) as run0:
             try:
                 run0.get_task_delay(ScheduledTask(task_name="t", labels={}, args=[], kwargs={}, cron="* * * * *", cron_offset=off_e))
             except Exception as exc:  # noqa: BLE001
@@ -146,8 +156,8 @@ def _concrete(c: sym.Ctx, kind: str, now: int, td: int, zone: str, earlier: Any 
         ("next-minute", wall + real_dt.timedelta(minutes=1), False),
         ("prev-minute", wall - real_dt.timedelta(minutes=1), False),
     ):
-        task = ScheduledTask(task_name="t", labels={}, args=[], kwargs={}, cron=_exact_expr(w), cron_offset=off)
-        with _sched.real_run_module(now) as run:
+        task = ScheduledTask(task_name="t", labels={}, args=[], kwargs={}, cron=_exact_expr(w, shape), cron_offset=off)
+        with _sched.real_run_module(now, fresh=earlier is None) as run:
             try:
                 r = run.get_task_delay(task)
             except Exception as exc:  # noqa: BLE001
@@ -169,13 +179,14 @@ def boundary(c: sym.Ctx, case: Any) -> None:
     c.cover("model_boundary")
     kind = case["kind"]
     now = NOW_SAMPLES[c.choose(len(NOW_SAMPLES), "now")]
+    shape = c.choose(["full", "minute", "hour"], "expression_shape")
     if kind == "td":
-        _concrete(c, "td", now, TD_SAMPLES[c.choose(len(TD_SAMPLES), "td")], ZONES[0])
+        _concrete(c, "td", now, TD_SAMPLES[c.choose(len(TD_SAMPLES), "td")], ZONES[0], None, shape)
     elif kind == "zone":
         zone = ZONES[c.choose(len(ZONES), "zone")]
-        _concrete(c, "zone", now, 0, zone)
+        _concrete(c, "zone", now, 0, zone, None, shape)
     else:
-        _concrete(c, "none", now, 0, ZONES[0])
+        _concrete(c, "none", now, 0, ZONES[0], None, shape)
 
 
 HARNESSES = {"harness": harness, "boundary": boundary}
